@@ -96,6 +96,11 @@ func (share *Share) Verify(ec elliptic.Curve, threshold int, vs Vs) bool {
 	if share.Threshold != threshold || vs == nil || len(vs) != threshold+1 {
 		return false
 	}
+	// share*G and id^j*V_j must not be the point at infinity, which ECPoint cannot represent (the scalar
+	// multiplications would panic): a share or an id that is 0 modulo the group order is never valid
+	if new(big.Int).Mod(share.Share, ec.Params().N).Sign() == 0 || new(big.Int).Mod(share.ID, ec.Params().N).Sign() == 0 {
+		return false
+	}
 	var err error
 	modQ := common.ModInt(ec.Params().N)
 	v, t := vs[0], one // YRO : we need to have our accumulator outside of the loop
@@ -108,10 +113,6 @@ func (share *Share) Verify(ec elliptic.Curve, threshold int, vs Vs) bool {
 		if err != nil {
 			return false
 		}
-	}
-	// share*G must not be the point at infinity, which ECPoint cannot represent (ScalarBaseMult would panic)
-	if new(big.Int).Mod(share.Share, ec.Params().N).Sign() == 0 {
-		return false
 	}
 	sigmaGi := crypto.ScalarBaseMult(ec, share.Share)
 	return sigmaGi.Equals(v)
